@@ -35,12 +35,15 @@ def _one(args):
     if extra:
         vs += extra(res, sc)
     div, labels, nact = (None, set(), 0)
+    tick_div, n_ticks = None, 0
     data_follow = None
     if want_follow:
         global _DRIVER
         if _DRIVER is None:
             _DRIVER = Driver()
         div, labels, nact = protofollow.follow(_DRIVER, res.events, sc.get("max_attempts", 2))
+        import tickfollow
+        tick_div, n_ticks = tickfollow.follow(_DRIVER, res.events)
         if prop in DATA_FOLLOW and div is None:
             import sysdatafollow
             ddiv, mism, dn = sysdatafollow.follow(_DRIVER, res.events, res.saves, sc.get("max_attempts", 2),
@@ -65,7 +68,7 @@ def _one(args):
             "violations": [(v.key, v.what, v.case) for v in vs], "divergence": div,
             "labels": sorted(labels), "actions": nact, "features": feats,
             "decisions": res.decisions, "events": len(res.events), "abort": res.sched_abort,
-            "data_follow": data_follow}
+            "data_follow": data_follow, "tick_div": tick_div, "ticks": n_ticks}
 
 
 _DRIVER = None
@@ -106,6 +109,13 @@ def run_many(ctx: Ctx, prop: str, jobs: list, res: SuiteResult, want_follow: boo
             res.disagreements.append(Disagreement(
                 res.name, f"implementation event #{d['event_index']} {d['event']} (model action "
                 f"`{d['action']}`) is not allowed by Pamiq.Proto: {d['model'][:300]}",
+                {"scenario": o["scenario"], "schedule": o["schedule"]}))
+        res.extra["control_ticks_compared"] = res.extra.get("control_ticks_compared", 0) + o.get("ticks", 0)
+        if o.get("tick_div") is not None:
+            d = o["tick_div"]
+            res.disagreements.append(Disagreement(
+                res.name, f"control tick #{d['tick']} `{d['line']}`: the implementation did "
+                f"{d['implementation']}, Pamiq.Tick says {d['model']}",
                 {"scenario": o["scenario"], "schedule": o["schedule"]}))
         df = o.get("data_follow")
         if df is not None:
